@@ -237,6 +237,9 @@ def run(ctx):
     thorough = ctx.tier == "thorough"
     ctx.model_check("C14_MC", "C14_MC.cfg", "table consistent with reference index arithmetic for all resolution pairs 3..5 (grid, torus, cylinder)")
     evs = _params(rng, thorough)
+    if thorough:          # the grid draws some parameters at random (axes, defects, covers): three more draws
+        for _ in range(3):
+            evs += _params(rng, thorough)
     cases = [{"id": "gen-%d" % i, "given": {"kind": "procedural"}, "events": evs[i:i + 10]} for i in range(0, len(evs), 10)]
     obs = ctx.execute("c14", "exec_case", cases, chunksize=2)
     ctx.judge("C14_Trace", "C14_Trace.cfg", obs, "generators-x-parameters", "c14", "exec_case", batch_events=60)
